@@ -107,7 +107,46 @@ func runC12Group(c *Ctx) {
 		}
 		return false
 	}
-	defer func() { eng.Accept = nil }()
+	wctn := p.TypeName("rtpconn", "webClient")
+	isGroupGetter := func(t *Term) bool {
+		if t.K != 'k' || t.Obj == nil || t.Obj.Name() != "Group" || len(t.Args) != 1 {
+			return false
+		}
+		fn, ok := t.Obj.(*types.Func)
+		return ok && (p.ifaceMethodIs(fn, "group", "Client", "Group") || fnIs(fn, "rtpconn", "webClient", "Group"))
+	}
+	eng.Concretise = func(f *Fact, tys map[string]types.Type) (*Fact, bool) {
+		var getter *Term
+		for _, top := range f.terms() {
+			top.walk(func(x *Term) {
+				if isGroupGetter(x) {
+					getter = x
+				}
+			})
+		}
+		if getter == nil {
+			return f, false
+		}
+		ty := tys[getter.Args[0].String()]
+		if ty == nil {
+			return f, false
+		}
+		if _, isIface := ty.Underlying().(*types.Interface); isIface {
+			return f, false
+		}
+		if isPtrTo(ty, wctn) {
+			to := TField(getter.Args[0], grp)
+			var b *Term
+			if f.B != nil {
+				b = f.B.subst(getter.String(), to)
+			}
+			return mkFact(f.Pos, f.Op, f.A.subst(getter.String(), to), b), false
+		}
+		// another implementation of group.Client: its group is set at
+		// construction and never cleared (stated assumption of R12.2)
+		return f, true
+	}
+	defer func() { eng.Accept = nil; eng.Concretise = nil }()
 	mentionsGroupField := func(t *Term) bool {
 		hit := false
 		t.walk(func(x *Term) {
@@ -180,7 +219,18 @@ func runC12Group(c *Ctx) {
 				}
 			}
 			if src == nil && !isParam {
-				return true
+				// the result of Client.Group() on an interface value: the
+				// implementation may be webClient.Group, which returns the
+				// nullable field; the requirement travels to the callers,
+				// where the client's concrete type is known
+				if t.K == 'k' && t.Obj != nil && t.Obj.Name() == "Group" && len(t.Args) == 1 {
+					if fn, ok := t.Obj.(*types.Func); ok && (p.ifaceMethodIs(fn, "group", "Client", "Group") || fnIs(fn, "rtpconn", "webClient", "Group")) {
+						src = t
+					}
+				}
+				if src == nil {
+					return true
+				}
 			}
 			need := mkFact(false, "eq", t, TNil())
 			r := eng.Holds(fs, sel.X, need)
